@@ -207,6 +207,22 @@ def check_C02(tier, seed):
     else:
         reader_histories(rep, tier, seed, "c02_", False, 14, 8000, ops=60, maxlen=96)
         parser_runs(rep, "sched", seed + 20, "c02p_", 14, 500)
+    # look-ahead of tens of MiB in one request (summary records judged by ParserContract!BigRequestOk)
+    exe = vlib.build_harness(True)
+    bq = os.path.join(TRACES, "c02_bigreq.ndjson")
+    pr = subprocess.run([exe, "bigreq", "--out", bq], cwd=vlib.ROOT, stdout=subprocess.PIPE, stderr=subprocess.PIPE, text=True, timeout=1800)
+    if pr.returncode < 0 or pr.returncode in DIED:
+        rep.violation({"kind": "process-died", "exit": pr.returncode, "object": "bigreq", "event": "abort", "op": "", "spec": "", "panic": False,
+                       "parser": ""}, {"spec": None, "how_to_replay": "vh bigreq (release build)", "stderr_tail": pr.stderr[-400:]})
+    elif pr.returncode != 0:
+        raise ToolError("vh bigreq failed (exit %d): %s" % (pr.returncode, pr.stderr[-800:]))
+    else:
+        res = validate_traces("c02_bigreq", "Trace_Contract", "Trace_Contract.cfg", [bq])
+        for rej in res["rejected"]:
+            first = json.loads(rej["first_unmatched"])
+            rep.violation({"kind": "big-request", "parser": "", "object": "reader", "event": "bigreq", "op": "request", "spec": "Trace_Contract",
+                           "panic": bool(first.get("panic"))},
+                          {"spec": "Trace_Contract", "how_to_replay": "vh bigreq (release build)", "first_unmatched": first})
     rep.cov["parser_level"] = ("every parser constructed through its own entry points (new over a DeferredReader, from_read, "
                                "from_buf_reader over a BufReader that already holds input, from_boxed_dyn_read) under varied "
                                "read schedules: all runs of one input must hand out the items of the reference run "
